@@ -98,8 +98,14 @@ def make_table(rng, on, keys, valname, vals, partial=False):
     if partial and len(on) == 2:
         cols = [rng.choice(on)]
         keys = uniq([tuple(k[on.index(c)] for c in cols) for k in keys])
+    elif partial and len(on) == 1:
+        # a table with NONE of the `on` columns (review t2, C20 item 6): a cross join - every row of it against every key
+        cols = []
+        keys = keys[:rng.choice([1, 2])]
     t = [(c, [k[i] for k in keys]) for i, c in enumerate(cols)]
     t.append((valname, [rng.choice(vals) for _ in keys]))
+    if not cols and not keys:
+        return [(valname, [rng.choice(vals)])]
     if rng.random() < 0.3:
         rng.shuffle(t)
     return t
@@ -167,7 +173,7 @@ def gen_case(rng, full=False):
                 elif r < 0.8:
                     renames.append((p, vcol))
                 elif r < 0.93 or full:
-                    renames.append((p, rng.choice([c for c, _ in t if c in on])))
+                    renames.append((p, rng.choice([c for c, _ in t if c in on] or [vcol])))
                 else:
                     renames.append((p, 'missing'))
     expiry = None
@@ -190,6 +196,8 @@ def gen_case(rng, full=False):
         tag += '+expiry-scalar'
     if expiry is not None and (expiry in SPELLED if not isinstance(expiry, list) else any(x in SPELLED for c, xs in expiry if c not in on for x in xs if isinstance(x, (str, int)))):
         tag += '+expiry-spelled'
+    if any(isinstance(v, list) and not any(c in on for c, _ in v) for _, v in inputs):
+        tag += '+keyless-table'             # a table input without any key column: cross join
     if defaults:
         tag += '+defaults'
     if renames:
